@@ -200,6 +200,19 @@ type machine struct {
 	cleanup func()
 	mu      sync.Mutex
 	qclog   []qcRecord
+	// scanHook, when set, is called (and cleared) the first time a query with filter "hook"
+	// looks at an index entry: something that happens while a query is scanning the index
+	scanHook func()
+}
+
+func (m *machine) fireScan() {
+	m.mu.Lock()
+	f := m.scanHook
+	m.scanHook = nil
+	m.mu.Unlock()
+	if f != nil {
+		f()
+	}
 }
 
 func recJSON(v interface{}) string {
@@ -221,7 +234,11 @@ func newMachine(cfg Cfg) (*machine, error) {
 		prefix, _ := hex.DecodeString(q.Get("prefix"))
 		off, _ := strconv.Atoi(q.Get("offset"))
 		lim, _ := strconv.Atoi(q.Get("limit"))
-		return &badgerstore.IndexQuery{Index: qs.Index(q.Get("index")), KeyPrefix: prefix, FilterKeys: filterFunc(q.Get("filter")), Offset: off, Limit: lim, Reverse: q.Get("reverse") == "true"}, nil
+		filter := filterFunc(q.Get("filter"))
+		if q.Get("filter") == "hook" {
+			filter = func([]byte) bool { m.fireScan(); return true }
+		}
+		return &badgerstore.IndexQuery{Index: qs.Index(q.Get("index")), KeyPrefix: prefix, FilterKeys: filter, Offset: off, Limit: lim, Reverse: q.Get("reverse") == "true"}, nil
 	})
 	for i, name := range cfg.Indexes {
 		name, first := name, i == 0
